@@ -250,8 +250,20 @@ const LOCKS: [&str; 16] = [
     "stat.RESOURCE_NODE_MAP",
 ];
 
+/// a listener that looks at the rules when a breaker goes away (re-enters the manager from a callback)
+struct DropListener {}
+impl cb::StateChangeListener for DropListener {
+    fn on_transform_to_closed(&self, _prev: cb::State, _rule: Arc<cb::Rule>) {}
+    fn on_transform_to_open(&self, _prev: cb::State, _rule: Arc<cb::Rule>, _s: Option<Arc<sentinel_core::base::Snapshot>>) {}
+    fn on_transform_to_half_open(&self, _prev: cb::State, _rule: Arc<cb::Rule>) {}
+    fn on_circuit_breaker_drop(&self, _prev: cb::State, rule: Arc<cb::Rule>) {
+        let _ = cb::get_rules_of_resource(&rule.resource);
+    }
+}
+
 pub fn run_case(t: &mut Toks) -> Vec<i128> {
     let mut out = Vec::new();
+    cb::register_state_change_listeners(vec![Arc::new(DropListener {})]);
     let np = t.usize();
     let pool: Vec<PR> = (0..np).map(|_| PR { id: t.u64(), res: t.u64(), key: t.u64() }).collect();
     let nsetup = t.usize();
